@@ -3,6 +3,7 @@
 (* C18 (affinity): families of frames that share one connection identity   *)
 (* while every other field varies (payload, flags, sequence numbers, TTL,  *)
 (* IP id, TOS, window, IP header length incl. < 5, TCP options, framing,   *)
+(* Ethernet addresses, the IPv4 fragment word (RF / DF / MF),              *)
 (* truncation that keeps the ports, direction), IPv4 and IPv6.  Each frame *)
 (* carries the identity each pool must key on:                             *)
 (*   tcp: source address; tls: directed 4-tuple; http: undirected 4-tuple  *)
@@ -39,6 +40,15 @@ Variants(h) ==
       l \in {"eth", "raw", "null"}, f \in {SYN, ACK, PSH + ACK, FIN + ACK, RST}, p \in {0, 1, 40}, t \in {1, 64, 255}, o \in BOOLEAN}
   \cup (IF h.ver = 4 THEN {[link |-> "eth", cut |-> 0, h |-> [h EXCEPT !.ihl = i, !.payload = Pay(p)]] : i \in 0..15, p \in {0, 33}} ELSE {})
   \cup {[link |-> "eth", cut |-> c, h |-> [h EXCEPT !.payload = Pay(40)]] : c \in {1, 17, 40}}               \* truncated payload, TCP header intact
+  \* Ethernet addresses, among them ones whose first bytes read like another framing (1e 00 .. with an IP version nibble at
+  \* offset 4: the loopback capture header; 45 .. / 60 ..: a raw IP header), with lengths and IP ids that differ
+  \cup {[link |-> "eth", cut |-> 0, h |-> [h EXCEPT !.dmac = m[1], !.smac = m[2], !.payload = Pay(p), !.ipid = 100 + t, !.ttl = t]] :
+          m \in {<<<<30, 0, 94, 16, 74, 1>>, <<2, 0, 0, 0, 0, 1>>>>, <<<<30, 0, 0, 0, 96, 0>>, <<30, 0, 0, 0, 69, 0>>>>, <<<<69, 0, 0, 40, 0, 0>>, <<64, 0, 64, 6, 0, 0>>>>,
+                  <<<<96, 0, 0, 0, 0, 20>>, <<6, 64, 0, 0, 0, 0>>>>, <<<<255, 255, 255, 255, 255, 255>>, <<0, 0, 0, 0, 0, 0>>>>},
+          p \in {0, 33}, t \in {1, 64, 255}}
+  \* the fragment word of IPv4: reserved bit, DF, MF (a first fragment still carries the ports)
+  \cup (IF h.ver = 4 THEN {[link |-> l, cut |-> 0, h |-> [h EXCEPT !.rf = r, !.df = d, !.mf = m, !.payload = Pay(p)]] :
+                               l \in {"eth", "raw"}, r \in BOOLEAN, d \in BOOLEAN, m \in BOOLEAN, p \in {0, 33}} ELSE {})
 
 IdentOf(e, rev) ==
   LET s == IF rev THEN <<e.b, e.pb>> ELSE <<e.a, e.pa>>
